@@ -163,8 +163,10 @@ class _ExecutorFlags:
     def flag_as_shutting_down(self, kill_workers=None):
         with self.shutdown_lock:
             self.shutdown = True
-            if kill_workers is not None:
-                self.kill_workers = kill_workers
+            if kill_workers:
+                # A pending request to kill the workers is never downgraded by
+                # a later graceful shutdown call.
+                self.kill_workers = True
 
     def flag_as_broken(self, broken):
         with self.shutdown_lock:
